@@ -172,6 +172,32 @@ fn random_valid_after_rejected(src: &mut Src, obs: &mut Obs) -> Res {
     must_accept(&s, Some(&q), obs, "sentence")
 }
 
+/// valid queries nested 33 .. 900 deep (beyond that: the stack-exhaustion finding of C08)
+fn deep_nesting(obs: &mut Obs, _thorough: bool) -> Res {
+    let depths = [33usize, 48, 63, 64, 65, 100, 127, 128, 129, 200, 255, 256, 257, 400, 512, 513, 700, 900];
+    let mut n = 0;
+    for d in depths {
+        let cases = [
+            format!("$[?{}@.a{}]", "(".repeat(d), ")".repeat(d)),
+            format!("$[?{}@.a{}]", "!(".repeat(d), ")".repeat(d)),
+            format!("$[?{}@.a == 1{}]", "@[?".repeat(d), "]".repeat(d)),
+            format!("$[?{}@.a{} == 1]", "length(".repeat(d), ")".repeat(d)),
+            format!("$[?{}@.a{}]", "( ".repeat(d), " )".repeat(d)),
+            format!("${}", "[0]".repeat(d)),
+            format!("${}", "..a".repeat(d)),
+            format!("$[{}0]", "0, ".repeat(d)),
+            format!("$[?@.a{}]", " || @.b && @.c".repeat(d)),
+            format!("$[?{}1 == 1{}]", "(@.a && ".repeat(d), ")".repeat(d)),
+        ];
+        for s in cases {
+            must_accept(&s, None, obs, "deep-nesting box")?;
+            n += 1;
+        }
+    }
+    obs.boxes.push(json!({"box": "valid queries with nesting / length 33..900 of ( , !( , [?@ , length( , [0] , ..a , union members , || && chains", "queries": n, "exhaustive": true}));
+    Ok(())
+}
+
 fn direct(case: &Value, obs: &mut Obs) -> Res {
     let s = case["query"].as_str().unwrap_or("");
     must_accept(s, None, obs, "regression file")
@@ -186,9 +212,10 @@ pub fn prop() -> Prop {
                Non-trivial: the sentence uses a non-empty blank, an escape, a non-ASCII name, a fraction/exponent, a union, a nested filter or a function call. Distinct by sentence.",
         assumptions: vec![
             "validity is by construction and double-checked by the independent recogniser (harness/src/recog.rs, self-tested on RFC examples); a disagreement between the two is reported as a harness inconsistency (exit 2), never as a violation",
-            "function-call nesting <= 3 and bracket/parenthesis nesting <= 32 (deeper inputs belong to C08)",
+            "random sentences: function-call nesting <= 3, bracket/parenthesis nesting <= 32; the deep-nesting box goes to 900 (beyond ~1000 the stack-exhaustion finding K6 of C08 applies)",
         ],
         subs: vec![
+            Sub { name: "deep-nesting", kind: Kind::Exhaustive(deep_nesting) },
             Sub { name: "random-sentences", kind: Kind::Random { f: random_sentences, quick: 160_000, thorough: 3_200_000, len: 600 } },
             Sub { name: "random-doc-guided", kind: Kind::Random { f: random_doc_guided, quick: 64_000, thorough: 1_280_000, len: 500 } },
             Sub { name: "random-valid-after-rejected", kind: Kind::Random { f: random_valid_after_rejected, quick: 160_000, thorough: 3_200_000, len: 900 } },
